@@ -133,6 +133,10 @@ class SimulationAlgorithm(BaseSimulationAlgorithm):
                 )
             if not feature.strip():
                 raise LeaspyAlgoInputError(f"Empty feature at the position {i}")
+            if feature in self.features[:i]:
+                raise LeaspyAlgoInputError(
+                    f"Duplicated feature at position {i}: '{feature}'"
+                )
 
     def _check_params(self, requirements):
         """Check if the parameters are valid.
